@@ -16,26 +16,10 @@ from fractions import Fraction
 
 import numpy
 
-from .. import canon, compat, findings
+from .. import canon, compat
 from ..core import Prop
 
 compat.install()
-
-# While a self-test mutant is installed, failures that match a KNOWN_FINDINGS line are not counted: the
-# core reports a mutant as killed when *any* case fails, and the corpus contains the triggering cases of
-# the known findings, which fail with or without the mutant.  With the flag a kill is always a fresh failure.
-_SELFTEST = {"on": False}
-
-
-@contextlib.contextmanager
-def _flagged(ctx):
-    _SELFTEST["on"] = True
-    try:
-        with ctx():
-            yield
-    finally:
-        _SELFTEST["on"] = False
-
 
 ENC_IND = ("subset", "integer", "binary", "real")
 ENC_MATE = ("mate_subset", "mate_integer", "mate_binary", "mate_real")
@@ -232,16 +216,6 @@ def _parse_log(enc, log, ncross, nparent):
         return None
 
 
-def _sus_pointer_defect(decn, k):
-    """the D7 condition of stochastic_universal_sampling evaluated on (p, k, offset): the pointer
-    array has a length different from k"""
-    def f(offset):
-        p = numpy.array([float(Fraction(v)) for v in decn])
-        tot = p.sum()
-        return len(numpy.arange(offset, tot, tot / k)) != k
-    return f
-
-
 @contextlib.contextmanager
 def _patch(obj, name, new):
     old = getattr(obj, name)
@@ -295,19 +269,21 @@ class C07(Prop):
     # ------------------------------------------------------------------ corpus
     def corpus(self):
         c = []
-        # D18: integer contributions (4,4), 2x2 slots: the remainder draw is hypergeometric (seed 3 -> [[1,1],[1,1]])
+        # D20: integer contributions (4,4), 2x2 slots: the remainder draw is hypergeometric (seed 3 -> [[1,1],[1,1]])
         c.append({"kind": "cfg", "enc": "integer", "ntaxa": 2, "ncross": 2, "nparent": 2, "decn": [4, 4], "seed": 3})
         c.append({"kind": "cfg", "enc": "mate_integer", "ntaxa": 3, "ncross": 2, "nparent": 2, "unique": True,
                   "decn": [3, 3, 0], "seed": 1})
-        # D7 (C17's): SUS offset within an ulp of the pointer spacing -> k-1 pointers -> reshape ValueError
+        # D7 (C17's, fixed by fc545079, kept as regression case): SUS offset within an ulp of the pointer spacing
+        # gave k-1 pointers -> reshape ValueError
         c.append({"kind": "cfg", "enc": "real", "ntaxa": 3, "ncross": 3, "nparent": 1, "decn": [1, 1, 1], "seed": 5,
                   "script": {"uniform": "prev"}})
-        # SUS offset exactly 0: counts (0,1,2) for equal shares 1 — inside "within one", outside floor/ceil
+        # SUS offset exactly 0 (before fc545079: counts (0,1,2) for equal shares 1 — inside "within one")
         c.append({"kind": "cfg", "enc": "real", "ntaxa": 3, "ncross": 3, "nparent": 1, "decn": [1, 1, 1], "seed": 5,
                   "script": {"uniform": "zero"}})
-        # D19: UsefulnessCriterionIntegerSelection.problem() stacks bounds of unequal length when ncross >= 2
+        # D21 (fixed by 3d8c7c9b, kept as regression case): UsefulnessCriterionIntegerSelection.problem() stacked
+        # bounds of unequal length when ncross >= 2; the second case also has a non-constant nmating array
         c.append({"kind": "select", "family": "uc", "enc": "mate_integer", "algo": "stub", "ntaxa": 3, "ncross": 2,
-                  "nparent": 2, "seed": 11, "nmating": 1, "nprogeny": 1, "names": ["a", "b", "c"],
+                  "nparent": 2, "seed": 11, "nmating": [1, 3], "nprogeny": 1, "names": ["a", "b", "c"],
                   "geno": [[[0, 1, 0, 1], [1, 1, 0, 0], [0, 0, 1, 1]], [[1, 1, 0, 1], [0, 1, 0, 0], [0, 1, 1, 1]]],
                   "u_a": [[-1], [1], [3], [-4]], "bv": [29, 19, 18], "unscale": False, "obj_wt": 1, "unique": True,
                   "nobj": 1, "soln_decn": [[1, 1, 0]], "soln_obj": [[4]], "ndset_wt": 1, "ndset_trans": "default"})
@@ -662,7 +638,8 @@ class C07(Prop):
         M = _mods()
         pg, bvmat, gp, ntrait = self._world(case, perm, names)
         store = {}
-        rng = RecRNG(case["seed"])
+        rng = RecRNG(case["seed"])                  # the protocol's own generator
+        stray = RecRNG(case["seed"] + 1)            # stands in for the module-level global generator
         if case["algo"] == "sorting":
             so, mo = self._recording_sorting(store), None
         else:
@@ -670,9 +647,9 @@ class C07(Prop):
             so, mo = st, st
         prot = self._protocol(case, ntrait, so, mo, rng, self._ndset(case))
         misc = {}
-        # D12 (C08's): select() builds the configuration with rng=None -> the module-level global generator;
-        # route that name to the recording generator so the draws are observed either way
-        with _patch(M["mixin"], "global_prng", rng):
+        # since fix 166b95e8 select() hands the protocol's generator to the configuration; any draw that
+        # still reaches the module-level global generator (the pre-repair rng=None path) lands on `stray`
+        with _patch(M["mixin"], "global_prng", stray):
             cfg = prot.select(pgmat=pg, gmat=pg, ptdf=None, bvmat=bvmat, gpmod=gp, t_cur=0, t_max=1, miscout=misc)
         log = [e for e in rng.log]
         enc = case["enc"]
@@ -684,7 +661,10 @@ class C07(Prop):
              "names": [str(pg.taxa[i]) for i in range(pg.ntaxa)],
              "nmating": [int(v) for v in cfg.nmating], "nprogeny": [int(v) for v in cfg.nprogeny],
              "design_ok": bool(cfg.ncross == case["ncross"] and cfg.nparent == case["nparent"] and _same_pop(cfg.pgmat, pg)),
-             "has_soln": ("sosoln" in misc) or ("mosoln" in misc)}
+             "has_soln": ("sosoln" in misc) or ("mosoln" in misc),
+             "own_generator": bool(cfg.rng is rng), "stray_draws": len(stray.log)}
+        if case["family"] == "uc" and enc == "mate_integer" and "prob" in store:
+            r["uc_upper"] = [int(v) for v in store["prob"].decn_space_upper]
         if enc.startswith("mate_"):
             r["xmap"] = [[int(v) for v in row] for row in cfg.xconfig_xmap]
         if "single_obj" in store:
@@ -702,18 +682,6 @@ class C07(Prop):
         return obs
 
     def run_impl(self, case):
-        if not _SELFTEST["on"]:
-            return self._run_impl(case)
-        try:
-            return self._run_impl(case)
-        except Exception as e:
-            fake = {"__exception__": canon.exc_tag(e), "text": str(e)[:200]}
-            f = findings.match(findings.load(self.PID), self.signature(case, fake, None))
-            if f is None:
-                raise
-            return {"suppressed_known_finding": f["id"]}
-
-    def _run_impl(self, case):
         k = case["kind"]
         if k == "cfg":
             return self._run_cfg(case)
@@ -747,8 +715,6 @@ class C07(Prop):
 
     def requests(self, case, obs):
         k = case["kind"]
-        if "suppressed_known_finding" in obs:
-            return []
         if k == "xmapix":
             return [{"op": "c07.xmapix", "ntaxa": case["ntaxa"], "nparent": case["nparent"], "unique": bool(case["unique"])}]
         if k == "cfg":
@@ -823,17 +789,6 @@ class C07(Prop):
         return corr, bool(s["ok"]), f"model={md} impl={xconfig} spec[{s['detail']}]", share_only
 
     def judge(self, case, obs, answers):
-        if "suppressed_known_finding" in obs:
-            return {"corr": True, "spec": True, "nontrivial": False,
-                    "detail": "known finding %s (not counted during the self-test)" % obs["suppressed_known_finding"]}
-        v = self._judge(case, obs, answers)
-        if _SELFTEST["on"] and not v["spec"]:
-            f = findings.match(findings.load(self.PID), self.signature(case, obs, v))
-            if f is not None:
-                v = dict(v, spec=True, corr=True, detail=v["detail"] + " [known finding %s not counted during the self-test]" % f["id"])
-        return v
-
-    def _judge(self, case, obs, answers):
         k = case["kind"]
         if k == "xmapix":
             m = self._ok(answers[0])
@@ -882,7 +837,10 @@ class C07(Prop):
             npg = case["nprogeny"] if isinstance(case["nprogeny"], list) else [case["nprogeny"]] * case["ncross"]
             design = o["design_ok"] and o["nmating"] == nm and o["nprogeny"] == npg and o["has_soln"]
             s = s and design
-            details.append(f"{key}: {d} design={design}")
+            # the configuration is sampled from the generator the protocol was constructed with
+            own = o["own_generator"] and o["stray_draws"] == 0
+            c = c and own
+            details.append(f"{key}: {d} design={design} draws_from_protocol_generator={own}")
             if case["algo"] == "sorting":
                 m = self._ok(answers[pos])
                 topk = self._ok(answers[pos + 1])
@@ -899,8 +857,9 @@ class C07(Prop):
         if case["family"] == "uc" and enc == "mate_integer":
             ub = self._ok(answers[pos])
             pos += 1
-            corr = corr and "error" not in ub       # the implementation got past problem(): so must the model
-            details.append(f"uc integer bounds model={'error' if 'error' in ub else 'ok'}")
+            ubok = "error" not in ub and ub.get("upper") == obs["a"].get("uc_upper")
+            corr = corr and ubok
+            details.append(f"uc integer upper bound model={ub.get('upper', ub.get('error'))} impl={obs['a'].get('uc_upper')}")
         nontriv = True
         if case["algo"] == "sorting":
             a, b = obs["a"], obs["b"]
@@ -989,21 +948,6 @@ class C07(Prop):
         enc = case.get("enc") or ""
         b = _base_enc(enc)
         nslot = case.get("ncross", 0) * (1 if enc.startswith("mate_") else case.get("nparent", 0))
-        if case.get("kind") == "cfg" and b == "real" and isinstance(obs, dict) and "__exception__" in obs:
-            sc = (case.get("script") or {}).get("uniform")
-            p = numpy.array([float(Fraction(v)) for v in case["decn"]])
-            tot = p.sum()
-            d = tot / nslot
-            off = {"zero": 0.0, "prev": float(numpy.nextafter(d, 0.0))}.get(sc)
-            if off is None and sc is not None:
-                off = float(Fraction(sc)) * d
-            if off is not None and len(numpy.arange(off, tot, d)) != nslot and obs["__exception__"] == "value":
-                sig["site"] = "stochastic_universal_sampling"
-                sig["cond"] = "pointer_count_ne_k"
-        if (case.get("kind") == "select" and case.get("family") == "uc" and enc == "mate_integer"
-                and case.get("ncross", 0) >= 2 and isinstance(obs, dict) and obs.get("__exception__") == "value"):
-            sig["site"] = "UsefulnessCriterionIntegerSelection.problem"
-            sig["cond"] = "nmating_array_repeated_in_bounds"
         if b == "integer" and isinstance(verdict, dict) and verdict.get("share_only"):
             decs = [case["decn"]] if case.get("kind") == "cfg" else case.get("soln_decn", [])
             for d in decs:
@@ -1142,7 +1086,7 @@ class C07(Prop):
             ("xmap_row_off_by_one", lambda: _many(*[mate_lookup_off_by_one(M["cfgmod"][e]) for e in ENC_MATE])),
             ("triudix_reversed_rows", lambda: _patch(arr, "triudix", triudix_wrong)),
         ]
-        return [(name, (lambda c=ctx: _flagged(c))) for name, ctx in muts]
+        return muts
 
 
 PROP = C07()
